@@ -4,6 +4,7 @@ solver query."""
 import fcntl
 import json
 import os
+import re
 import subprocess
 import time
 
@@ -18,8 +19,8 @@ def build_binary(profile="dev"):
     with open(os.path.join(BIN_DIR, "lock"), "w") as lf:
         fcntl.flock(lf, fcntl.LOCK_EX)
         src = os.path.join(BIN_DIR, "src")
-        subprocess.run(["rsync", "-a", "--delete", "--exclude", "/target", "--exclude", "/.git",
-                        REPO + "/", src + "/"], check=True)
+        from . import mir as _mir
+        _mir.sync_repo(src)
         env = dict(os.environ)
         env["CARGO_NET_OFFLINE"] = "true"
         env.pop("RUSTUP_TOOLCHAIN", None)
@@ -54,7 +55,29 @@ def run_program(exe, program, goal, timeout=60):
             pass
 
 
-def run_cases(program, cases, record, prop, name):
+def run_batch(exe, program, cases, chunk=64):
+    """many goals per process (start-up of the debug binary dominates): each goal prints one
+    line; a goal that fails or throws prints a marker line instead"""
+    outs = []
+    for i in range(0, len(cases), chunk):
+        part = cases[i:i + chunk]
+        clauses = "\n".join("b_g(%d) :- %s." % (k, g) for k, (g, _) in enumerate(part))
+        body = ", ".join("b_(%d)" % k for k in range(len(part)))
+        prog = program + ("\n:- discontiguous(b_g/1).\n%s\nb_(K) :- write(K), write(' '), "
+                          "( catch(b_g(K), E, (write(exception(E)), nl)) -> true ; write(failed), nl ).\n"
+                          "b_main :- %s.\n" % (clauses, body))
+        rc, out, err = run_program(exe, prog, "b_main, halt", timeout=600)
+        got = {}
+        for line in out.split("\n"):
+            m = re.match(r"^(\d+) (.*)$", line)
+            if m:
+                got[int(m.group(1))] = m.group(2)
+        for k in range(len(part)):
+            outs.append(got.get(k, "<no output rc=%s %s>" % (rc, err.strip()[-200:])))
+    return outs
+
+
+def run_cases(program, cases, record, prop, name, batch=False):
     """cases: [(goal_text, expected_output_line)]. Each goal must print one line.
     Returns replay record (written to REPLAY_DIR/prop/name.json)."""
     os.makedirs(os.path.join(REPLAY_DIR, prop), exist_ok=True)
@@ -67,7 +90,11 @@ def run_cases(program, cases, record, prop, name):
         rec["why"] = "building scryer-prolog from the working tree failed"
     else:
         mism = []
-        for goal, want in cases:
+        if batch:
+            for (goal, want), got in zip(cases, run_batch(exe, program, cases)):
+                if got != want:
+                    mism.append({"goal": goal, "want": want, "got": got})
+        for goal, want in ([] if batch else cases):
             g = "catch((%s), E, (write(exception(E)), nl)), halt" % goal
             rc, out, err = run_program(exe, program, g)
             got = out.strip().split("\n")[-1] if out.strip() else "<no output rc=%s %s>" % (
@@ -465,3 +492,46 @@ def replay_number_comparisons(problems, prop="C04"):
     cases[-1] = ("N is 2^60-2^60+2, functor(T, foo, N), functor(T, F, A), show(F/A)", "foo/2")
     cases.append(("N is 2^60-2^60+0, functor(T, foo, N), show(T)", "foo"))
     return run_cases(NUMCMP_PROGRAM, cases, {"model": problems[:6]}, prop, "number_comparisons")
+
+
+# ---------------------------------------------------------------- C13 (ParallelHeapIter arms)
+def replay_term_order(viol):
+    """two-element sequences in every representation (string, list, list with string tail,
+    partial string) and compounds: compare/3 against the order computed on the abstract terms:
+    heads before tails, arguments left to right, arity before name."""
+    def order(a, b):
+        return "<" if a < b else (">" if a > b else "=")
+    seqs = ["ab", "ba", "ac", "bb", "aa"]
+    # representations are built at run time (a source-level list of characters may be stored as a
+    # string): string literal, explicit list cells (explode/2), list cell with a string tail
+    reps = [lambda v, s: '%s = "%s"' % (v, s),
+            lambda v, s: 'explode("%s", %s)' % (s, v),
+            lambda v, s: 'H%s = %s, T%s = "%s", %s = [H%s|T%s]' % (v, s[0], v, s[1], v, v, v)]
+    cases = []
+    for x in seqs:
+        for y in seqs:
+            for i, rx in enumerate(reps):
+                for j, ry in enumerate(reps):
+                    cases.append(("%s, %s, compare(O, X, Y), write(O), nl" % (rx("X", x), ry("Y", y)),
+                                  order(x, y)))
+            # compounds: arguments left to right
+            cases.append(("compare(O, f(%s,%s), f(%s,%s)), write(O), nl" % (x[0], x[1], y[0], y[1]),
+                          order(x, y)))
+            # partial strings with unbound tails: the heads decide when they differ
+            if x[0] != y[0]:
+                cases.append(('partial_string("%s", X, _), partial_string("%s", Y, _), compare(O, X, Y), '
+                              'write(O), nl' % (x[0], y[0]), order(x[0], y[0])))
+    # three-element sequences: longer tails
+    for x, y in (("abc", "acb"), ("bca", "abz"), ("abc", "abd"), ("cab", "bzz")):
+        for i, rx in enumerate(reps[:2]):
+            for j, ry in enumerate(reps[:2]):
+                cases.append(("%s, %s, compare(O, X, Y), write(O), nl" % (rx("X", x), ry("Y", y)), order(x, y)))
+    # arity before name, then name; lists and strings are './2' compounds
+    for a, b, w in (("f(a,b)", '"ab"', ">"), ('"ab"', "f(a,b)", "<"), ("a-b", '"ab"', "<"),
+                    ('"ab"', "a-b", ">"), ("f(a,b)", "[a,b]", ">"), ("[a,b]", "a-b", ">"),
+                    ("g(a)", '"ab"', "<"), ('"ab"', "z(a)", ">"), ("f(a,b,c)", '"zz"', ">"),
+                    ("g(a)", "f(a,b)", "<"), ("f(a,b)", "g(a)", ">"), ("f(z,a)", "g(a,a)", "<"),
+                    ("f(a,b,c)", "f(a,c,b)", "<"), ("f(b,a,a)", "f(a,z,z)", ">")):
+        cases.append(("X = %s, Y = %s, compare(O, X, Y), write(O), nl" % (a, b), w))
+    prog = (":- use_module(library(iso_ext)).\nexplode([], []).\nexplode([C|Cs], [C|Ds]) :- explode(Cs, Ds).\n")
+    return run_cases(prog, cases, {"model": viol}, "C13", "term_order", batch=True)
